@@ -51,6 +51,44 @@ func c09(p *Prog, r *Report) {
 	r.List("functions", shortName(fin))
 	r.List("functions", shortName(ver))
 
+	// ---- R5: the identifiers are compared as what they are
+	const R5 = "C09.keys-are-injective-encodings"
+	r.Rule(R5, "every key and value of the ClientState maps is hex.EncodeToString(x) or string(x) of the identifier - an injective encoding, so two identifiers are one entry only if they are equal (a fixed-size array filled by copy truncates or pads)", 1)
+	{
+		s := p.NewSym(fin)
+		n, bad := 0, ""
+		inj := func(v ssa.Value) bool {
+			t := s.Of(v).String()
+			return strings.HasPrefix(t, "call<encoding/hex.EncodeToString>(") || strings.HasPrefix(t, "conv<string>(")
+		}
+		for _, f := range p.ModuleFuncs() {
+			for _, b := range f.Blocks {
+				for _, in := range b.Instrs {
+					switch x := in.(type) {
+					case *ssa.MapUpdate:
+						if fld, ok := clientStateField(x.Map); ok && f == fin {
+							n++
+							if !inj(x.Key) || (isByteSliceOrString(x.Value.Type()) && !inj(x.Value)) {
+								bad = "ClientState." + fld + " entry at " + p.InstrPos(x) + " is keyed or valued by " + clip(s.Of(x.Key).String(), 120) + " / " + clip(s.Of(x.Value).String(), 120)
+							}
+						} else if ok {
+							n++
+							bad = "ClientState." + fld + " updated outside FinalizeIndex at " + p.InstrPos(x)
+						}
+					case *ssa.Lookup:
+						if fld, ok := clientStateField(x.X); ok && f == fin {
+							n++
+							if !inj(x.Index) {
+								bad = "ClientState." + fld + " looked up at " + p.InstrPos(x) + " by " + clip(s.Of(x.Index).String(), 120)
+							}
+						}
+					}
+				}
+			}
+		}
+		r.Check(n > 0 && bad == "", R5, "ClientState entries are keyed by injective encodings of the identifiers", p.Pos(fin.Pos()), fmt.Sprintf("%d map accesses, each by hex.EncodeToString/string of the identifier", n), firstNonEmpty(bad, "no ClientState map access found"))
+	}
+
 	// ---- R1: module-wide who-may-write
 	var upd []ssa.Instruction
 	badWrites := 0
